@@ -14,6 +14,22 @@ def superstep_once(step_name):
     return {"name": f"each loop iteration computes the ready set once and runs at most one superstep ({step_name})", "check": check}
 
 
+def ids_to_superstep(step_name):
+    """C12: every superstep is given THIS run's dispatcher, run id and run span (the parent of its node events) and this graph."""
+    def check(tr, outcome, raised, env, ex, s):
+        import z3
+        def t(v):
+            return getattr(v, "t", None)
+        conds = []
+        for e in calls(tr, step_name):
+            kw, a = e[2].get("kwargs", {}), e[2].get("args", [])
+            if not {"dispatcher", "run_id", "run_span_id"} <= set(kw) or not a:
+                return False
+            conds += [t(kw["dispatcher"]) == t(env["dispatcher"]), t(kw["run_id"]) == t(env["run_id"]), t(kw["run_span_id"]) == t(env["run_span_id"]), t(a[0]) == t(env["graph"])]
+        return z3.And(*conds) if conds else True
+    return {"name": f"C12 {step_name} receives this run's dispatcher, run id, run span and graph", "check": check}
+
+
 def loop_verdict(tr, outcome, raised, env, ex, s):
     """C04: InfiniteLoopError is reported only when, after max_iterations supersteps, nodes are STILL ready; a quiescent run
     returns its state even when it used exactly max_iterations steps."""
@@ -46,7 +62,7 @@ def wraps_with_state(tr, outcome, raised, env, ex, s):
 
 def contract(cls, step):
     return dict(
-        props=["C04", "C02", "C11"],
+        props=["C04", "C02", "C11", "C12"],
         params={"self": OBJ(cls), "graph": OBJ("Graph"), "values": DICT(STR, ANY), "max_iterations": INT, "max_concurrency": OPT(INT), "dispatcher": ANY, "run_id": STR, "run_span_id": STR, "event_processors": ANY},
         returns=OBJ("GraphState"),
         requires=["max_iterations >= 1", "nodes_keyed_by_name(graph)", "gates_wellformed(graph, END)"],
@@ -56,7 +72,7 @@ def contract(cls, step):
                {"name": "C11 only ExecutionError (carrying the state so far) leaves the superstep loop", "check": wraps_with_state}],
         # the graph is immutable: its well-formedness facts survive every superstep (carried explicitly because the loop
         # re-binds `state`, so the loop cut forgets the whole heap)
-        loops=[{"bound": "max_iterations", "body_trace": [superstep_once(step)], "invariant": ["nodes_keyed_by_name(graph)", "gates_wellformed(graph, END)"]}],
+        loops=[{"bound": "max_iterations", "body_trace": [superstep_once(step), ids_to_superstep(step)], "invariant": ["nodes_keyed_by_name(graph)", "gates_wellformed(graph, END)"]}],
     )
 
 
@@ -85,6 +101,6 @@ CONTRACTS = {
     SR + "_execute_graph_impl": contract("SyncRunner", "run_superstep_sync"),
     AR + "_execute_graph_impl_async": contract("AsyncRunner", "run_superstep_async"),
 }
-CONTRACTS[AR + "_execute_graph_impl_async"]["props"] = ["C04", "C02", "C11", "C15"]
+CONTRACTS[AR + "_execute_graph_impl_async"]["props"] = ["C04", "C02", "C11", "C12", "C15"]
 CONTRACTS[AR + "_execute_graph_impl_async"]["trace"] = CONTRACTS[AR + "_execute_graph_impl_async"]["trace"][:1] + [
     {"name": "C15 limiter installed iff absent and requested; reset on every exit path; supersteps only in between", "check": limiter_bracket}]
